@@ -4,13 +4,13 @@ use crate::link::ALL_RANDOM_PROFILES;
 use crate::oracles::{OrderedOracle, SizeMonitor};
 use crate::outcome::{Ctx, Outcome, PropInfo};
 use crate::rng::Rng;
-use crate::rsim::{CfgGen, Kind, Monitor};
+use crate::rsim::{CfgGen, DrainMode, Kind, Monitor};
 use crate::traffic::{self, CoverageMonitor, Plan};
 
 pub static INFO: PropInfo = PropInfo {
     id: "C01",
     level: "exploration",
-    rule: "one evaluation = one simulated session (1-2 connections, both directions, seeded fault schedule per datagram: drop / duplicate 2-4x / delay k ticks / reorder / blackout / scripted lose-first and hold-reverse, seeded tick length, resend time, budgets, drain placement and per-tick phase interleaving); the oracle compares every obtained message of every ReliableOrdered channel with the submission at the same position and asserts full delivery at a computed deadline after the links heal. Non-trivial = the link dropped, duplicated or reordered at least one datagram AND at least one retransmission happened AND every submitted message was obtained; distinct = distinct event-log fingerprints (submissions, datagram sizes, copies, arrivals, receives).",
+    rule: "one evaluation = one simulated session (1-2 connections, both directions, seeded fault schedule per datagram: drop / duplicate 2-4x / delay k ticks / reorder / blackout / scripted lose-first and hold-reverse, seeded tick length, resend time, budgets, drain placement and per-tick phase interleaving); the oracle compares every obtained message of every ReliableOrdered channel with the submission at the same position and asserts full delivery at a computed deadline after the links heal. Non-trivial = the link dropped, duplicated or reordered at least one datagram AND at least one retransmission happened AND every submitted message was obtained; distinct = distinct event-log fingerprints (submissions, datagram sizes, copies, arrivals, receives). One run in 8 is an OVERLOAD run: 8-16 KB budgets, an application that drains every 3rd-9th tick or at random, submissions limited by the sender's can_send_message only; the receive side may run out of room and disconnect loudly (which excuses delivery), but a connection that stays up must still deliver everything in order.",
     assumptions: &[
         "bounded liveness only: deadline = 3*(ceil(resend/dt)+2) + 4*ceil(backlog/(budget-1199)) + 20 ticks after faults stop",
         "liveness runs use available_bytes_per_tick >= 2500 (a budget below one slice can never send a sliced message)",
@@ -47,6 +47,19 @@ pub fn one_run(ctx: &Ctx, out: &mut Outcome, run_seed: u64) {
         flood_cfg(&mut cfg, &mut r);
         out.count("flood_runs");
     }
+    // overload (own random stream): tight budgets, a lazily draining application and submissions limited by the
+    // sender's can_send_message only. The receiver may run out of room - a loud disconnect, which excuses delivery
+    // ("and neither side has been disconnected") - but a connection that stays up still owes every message.
+    let mut orng = Rng::new(run_seed ^ 0x0E7_10AD);
+    let overload = !flood && orng.chance(1, 8);
+    if overload {
+        let mem = *orng.pick(&[8 * 1024usize, 12 * 1024, 16 * 1024]);
+        for c in cfg.up.iter_mut().chain(cfg.down.iter_mut()) {
+            c.max_mem = mem;
+        }
+        cfg.drain = if orng.chance(1, 2) { DrainMode::EveryN(orng.range(3, 9)) } else { DrainMode::Random };
+        out.count("overload_runs");
+    }
     let kinds = match r.below(3) {
         0 => vec![Kind::ReliableOrdered],
         1 => vec![Kind::ReliableOrdered, Kind::ReliableUnordered],
@@ -62,6 +75,7 @@ pub fn one_run(ctx: &Ctx, out: &mut Outcome, run_seed: u64) {
         liveness: true,
         flood,
         max_len: 400_000,
+        overload,
     };
     let mut mons: Vec<Box<dyn Monitor>> = vec![
         Box::new(OrderedOracle::new("C01", true)),
@@ -72,6 +86,11 @@ pub fn one_run(ctx: &Ctx, out: &mut Outcome, run_seed: u64) {
     let (s, sim) = traffic::run(ctx, out, cfg, &plan, run_seed, &mut mons);
     for p in profile_names {
         out.count(&p);
+    }
+    if overload && s.any_disconnected {
+        out.count("overload_runs_ending_in_a_loud_disconnect");
+    } else if overload {
+        out.count("overload_runs_staying_connected");
     }
     let faults = s.dropped + s.duplicated + s.reordered > 0;
     let nontrivial = faults && s.retransmissions > 0 && s.all_obtained && !s.any_disconnected;
